@@ -880,6 +880,45 @@ def desugar_range_map_filter_collect(text, log, where):
     return text
 
 
+def desugar_map_fold(text, log, where):
+    """R17c: `X.iter().map(F).fold(INIT, |mut ACC, E| { BODY ACC })` -> `{ let mut ACC = INIT; for verif_x in X.iter() { let E = F(verif_x); BODY } ACC }`
+    (F a path to a function; the fold closure must end with the accumulator as its value)."""
+    toks = lex(text)
+    for i in range(1, len(toks) - 10):
+        if not (toks[i].text == "iter" and toks[i - 1].text == "." and toks[i + 1].text == "(" and toks[i + 2].text == ")"
+                and toks[i + 3].text == "." and toks[i + 4].text == "map" and toks[i + 5].text == "("):
+            continue
+        mc = match_close(toks, i + 5)
+        if not (toks[mc + 1].text == "." and toks[mc + 2].text == "fold" and toks[mc + 3].text == "("):
+            continue
+        fc = match_close(toks, mc + 3)
+        f = text[toks[i + 5].end:toks[mc].start].strip()
+        if "|" in f:
+            continue
+        args = split_args(text[toks[mc + 3].end:toks[fc].start])
+        if len(args) < 2:
+            continue
+        init, clo = args[0], ", ".join(args[1:])   # the closure's own parameter list contains a top-level comma
+        m = re.match(r"^\|\s*mut\s+(\w+)\s*,\s*(\w+)\s*\|\s*\{(.*)\}\s*$", clo, re.S)
+        if not m:
+            continue
+        acc, e, body = m.group(1), m.group(2), m.group(3).strip()
+        if not re.search(r"\b%s\s*$" % re.escape(acc), body):
+            continue
+        body = re.sub(r"\b%s\s*$" % re.escape(acc), "", body).rstrip()
+        r = i - 1
+        while r - 1 >= 0 and (toks[r - 1].kind == "id" or toks[r - 1].text == "."):
+            r -= 1
+        if toks[r].text == ".":
+            r += 1
+        recv = re.sub(r"\s+", "", text[toks[r].start:toks[i - 1].start])
+        repl = "{ let mut %s = %s;\nfor verif_x in %s.iter() {\nlet %s = %s(verif_x);\n%s\n}\n%s }" % (acc, init.strip(), recv, e, f, body, acc)
+        text = text[:toks[r].start] + repl + text[toks[fc].end:]
+        log.append(("R17c", where, "iter().map(%s).fold(..) over %s desugared into a loop" % (f, recv)))
+        return text
+    return text
+
+
 def annotate_closures(u, fnpath, text, log):
     """R13: give a closure an explicit Verus header (parameter types, requires/ensures); the body is
     kept verbatim (wrapped in a block when it is a bare expression)."""
@@ -941,6 +980,7 @@ def process_fn(u, fnpath, text, log, origin, canary=None):
     if settings.get("mapcollect") == "loop":
         text = desugar_map_collect(text, log, fnpath)
         text = desugar_range_map_filter_collect(text, log, fnpath)
+        text = desugar_map_fold(text, log, fnpath)
     if u.sqlmap:
         text = rewrite_sql(u, fnpath, text, log)
     if fnpath in u.mutself:
